@@ -59,6 +59,7 @@ def failure_family(a, b):
     one are subscribed to '#' before the failure, and another set subscribes afterwards (retained replay)."""
     out = []
     blv = b.split("/")
+    alv = a.split("/")
     for r, q in ((True, 1), (True, 0), (False, 1)):
         for late_first in (False, True):
             ops = []
@@ -71,6 +72,11 @@ def failure_family(a, b):
                      "will": {"t": blv + ["alarm"], "p": "will-named-like-b", "q": q, "r": r}},
                     {"op": "connect", "c": 2, "n": 2, "client": "dev2", "user": "tenant:" + a, "ka": 10,
                      "will": {"t": ["alarm"], "p": "will-alarm", "q": 0, "r": not r}},
+                    # will topics that begin like the session's OWN mount point: with a separator, and as a mere string prefix
+                    {"op": "connect", "c": 11, "n": 2, "client": "dev3", "user": "tenant:" + a, "ka": 10,
+                     "will": {"t": alv + ["status"], "p": "will-named-like-a", "q": q, "r": False}},
+                    {"op": "connect", "c": 12, "n": 2, "client": "dev4", "user": "tenant:" + a, "ka": 10,
+                     "will": {"t": alv[:-1] + [alv[-1] + "-east", "status"], "p": "will-prefixed-like-a", "q": 1, "r": False}},
                     {"op": "peerfail", "n": 2, "ms": 3300}]
             late = [(4, "tenant:" + b), (3, "tenant:" + a), (10, "")]
             if late_first:
